@@ -46,8 +46,8 @@ pub fn gen_swarm(rng: &mut Rng, profile: Profile) -> Swarm {
         proto_prefix,
         native_prefix,
         channel: *rng.pick(&[0u64, 1, 42, 1234, 4_000_000_000]),
-        batch_period: if many { 60 } else { *rng.pick(&[60u64, 3600, 86_400, 7 * 86_400]) },
-        unbonding: *rng.pick(&[120u64, 86_400, 21 * 86_400, 90 * 86_400]),
+        batch_period: if many { 60 } else { *rng.pick(&[60u64, 3600, 86_400, 7 * 86_400, 0, 1]) },
+        unbonding: *rng.pick(&[120u64, 86_400, 21 * 86_400, 90 * 86_400, 0]),
         min_stake: *rng.pick(&[0u128, 1, 100, 1_000_000]),
         fee_rate,
         treasury: rng.chance(1, 2),
@@ -65,6 +65,7 @@ pub fn gen_swarm(rng: &mut Rng, profile: Profile) -> Swarm {
         base_tx_index: rng.below(50) as u32,
         zero_ibc_ok: rng.chance(3, 10),
         zero_tf_ok: rng.chance(3, 10),
+        mon_rev: rng.chance(1, 2),
     }
 }
 
@@ -107,6 +108,17 @@ fn who_any(rng: &mut Rng) -> Who {
     }
 }
 
+/// accounts that hold some role on the protocol chain (none of which is the ibc-hooks account)
+fn who_privileged(rng: &mut Rng) -> Who {
+    match rng.below(8) {
+        0..=2 => Who::Admin,
+        3 | 4 => Who::Monitor(rng.below(3) as u8),
+        5 => Who::Treasury,
+        6 => Who::FormerAdmin,
+        _ => Who::Oracle,
+    }
+}
+
 fn who_non_admin(rng: &mut Rng) -> Who {
     loop {
         let w = who_any(rng);
@@ -128,7 +140,7 @@ fn cfg_sections(rng: &mut Rng, e: &Engine) -> Vec<CfgSection> {
     if mask & 2 != 0 && rng.chance(1, 6) {
         v.push(CfgSection::BatchPeriod(edge));
     } else if mask & 2 != 0 {
-        v.push(CfgSection::BatchPeriod(*rng.pick(&[1u64, 60, 60, 3600, 3600, 86_400, 86_400, 30 * 86_400, 30 * 86_400, u64::MAX, u64::MAX / 2 + 7])));
+        v.push(CfgSection::BatchPeriod(*rng.pick(&[0u64, 1, 60, 60, 3600, 3600, 86_400, 86_400, 30 * 86_400, 30 * 86_400, u64::MAX, u64::MAX / 2 + 7])));
     }
     if mask & 4 != 0 {
         let n = rng.below(4);
@@ -136,7 +148,7 @@ fn cfg_sections(rng: &mut Rng, e: &Engine) -> Vec<CfgSection> {
     }
     if mask & 8 != 0 {
         let n = rng.below(4);
-        let unb = if rng.chance(1, 6) { edge } else { *rng.pick(&[1u64, 120, 120, 86_400, 86_400, 21 * 86_400, 21 * 86_400, u64::MAX, u64::MAX - 1_000_000]) };
+        let unb = if rng.chance(1, 6) { edge } else { *rng.pick(&[0u64, 1, 120, 120, 86_400, 86_400, 21 * 86_400, 21 * 86_400, u64::MAX, u64::MAX - 1_000_000]) };
         v.push(CfgSection::Native { unbonding: unb, validators: (0..n).map(|_| rng.below(5) as u8).collect(), staker: rng.below(3) as u8, collector: rng.below(3) as u8, upper: rng.chance(1, 6) });
     }
     if mask & 16 != 0 {
@@ -410,14 +422,16 @@ pub fn next_op(e: &Engine, rng: &mut Rng) -> Op {
             Op::ToDeadline { which, delta: *rng.pick(&[-1i64, 0, 0, 1, 1, 5, 600]) }
         }
         4 => {
-            let mode = match rng.below(20) {
+            let mode = match rng.below(23) {
                 0..=9 => Deliver::Exact,
                 10 | 11 => Deliver::Short(rng.range(1, 99) as u8),
                 12 | 13 => Deliver::Long(rng.range(101, 300) as u16),
                 14 => Deliver::OtherChannel,
                 15 | 16 => Deliver::OtherAccount,
                 17 => Deliver::RoleSwap,
-                _ => Deliver::DirectCall,
+                18 | 19 => Deliver::DirectCall,
+                20 => Deliver::WrongDenom,
+                _ => Deliver::DirectBy(who_privileged(rng)),
             };
             let sel = if rng.chance(1, 8) { 200 + rng.below(50) as u8 } else { rng.below(8) as u8 };
             Op::OpDeliver { batch: sel, mode }
@@ -468,12 +482,14 @@ pub fn next_op(e: &Engine, rng: &mut Rng) -> Op {
             },
         },
         9 => {
-            let mode = match rng.below(16) {
+            let mode = match rng.below(18) {
                 0..=10 => Deliver::Exact,
                 11 => Deliver::OtherChannel,
                 12 | 13 => Deliver::OtherAccount,
                 14 => Deliver::RoleSwap,
-                _ => Deliver::DirectCall,
+                15 => Deliver::DirectCall,
+                16 => Deliver::WrongDenom,
+                _ => Deliver::DirectBy(who_privileged(rng)),
             };
             // rewards are normally a small fraction of the stake; occasionally anything
             let a = if e.m.n > 0 && !rng.chance(1, 8) { (e.m.n / *rng.pick(&[10_000u128, 1000, 365, 100, 10, 3, 2])).max(1) + rng.range(0, 3) as u128 } else { amount(rng, e) };
@@ -550,6 +566,7 @@ pub fn next_op(e: &Engine, rng: &mut Rng) -> Op {
             })
         }
         19 => Op::OpSlash { pct: rng.range(1, 30) as u8 },
+        20 if e.sw.faults && rng.chance(1, 3) => Op::Donate { user: rng.below(nu) as u8, kind: *rng.pick(&[0u8, 0, 1, 1, 2]), amount: amount(rng, e) },
         20 => Op::Advance { secs: *rng.pick(&[1u64, 6, 60, 3600, 86_400, 1001]) },
         21 => {
             if rng.chance(1, 2) {
